@@ -287,6 +287,8 @@ def judge_c08(R, shape, timeout=T):
         lo, hi = bu[0], bu[-1]
         if any(r['end'] is None for r in inv):
             return devs
+        if any(r['start'] == t for r in inv for t in bu):
+            continue  # an invocation started at the very instant of an arrival: tie with a timer, not judged
         if any(r['end'] > lo and r['start'] < hi + timeout for r in inv if r['start'] != hi + timeout):
             started_inside = [r for r in inv if lo <= r['start'] < hi + timeout]
             busy_before = [r for r in inv if r['start'] < lo and r['end'] > lo]
@@ -354,26 +356,37 @@ def twin(prop, shape, pauses, dur, fails):
 
 
 # ------------------------------------------------------------------------------------ cells
-def _cell(prop, shape, tier, tmo, dmax=25, pmax=25, fp=None, weight=2, deco=False, nfail=2):
+def _cell(prop, shape, tier, tmo, dmax=25, pmax=25, fp=None, weight=2, deco=False, nfail=2, split=0):
+    """split=1: partition every pause into [0,9] / [10,pmax]; split=2: also the duration."""
+    from harness.batcher import parts, product_pre
     npz = sum(1 for k in shape if k in 'pag')
     has_prod = any(k in 'iag' for k in shape)
     sig = 'pauses: List[int], dur: int, fails: List[bool]' + (', fp: int' if has_prod and fp is None else '')
-    pre = ['len(pauses) == %d and all(0 <= p <= %d for p in pauses) and 0 <= dur <= %d and len(fails) == %d' % (npz, pmax, dmax, nfail)]
-    if has_prod and fp is None:
-        pre.append('-1 <= fp <= 1')
+    base = 'len(pauses) == %d and len(fails) == %d' % (npz, nfail)
+    frs = []
+    for i in range(npz):
+        frs.append(parts('pauses[%d]' % i, [(0, 9), (10, pmax)] if split < 3 else [(0, 9), (10, 12), (13, pmax)]) if split >= 1 else ['0 <= pauses[%d] <= %d' % (i, pmax)])
+    frs.append(parts('dur', [(0, 9), (10, dmax)]) if split >= 2 else ['0 <= dur <= %d' % dmax])
     fpx = 'fp' if (has_prod and fp is None) else repr(-1 if fp is None else fp)
-    return Cell(name='%s_%s%s' % (prop.lower(), shape, '_deco' if deco else ''), sig=sig, pre=pre,
-                body='H.scen(%r, %r, pauses, dur, fails, %s, %r)' % (prop, shape, fpx, deco),
-                tier=tier, timeout=tmo, family=prop.lower(), weight=weight)
+    out = []
+    for sfx, pre in product_pre(frs):
+        pres = [base, pre]
+        if has_prod and fp is None:
+            pres.append('-1 <= fp <= 1')
+        out.append(Cell(name='%s_%s%s%s' % (prop.lower(), shape, '_deco' if deco else '', ('_p' + sfx) if split else ''), sig=sig, pre=pres,
+                        body='H.scen(%r, %r, pauses, dur, fails, %s, %r)' % (prop, shape, fpx, deco),
+                        tier=tier, timeout=tmo, family=prop.lower(), weight=weight + (2 if split else 0)))
+    return out
 
 
+# shape -> split level (0 none, 1 pauses, 2 pauses and duration)
 QUICK_SHAPES = {
-    'C03': ['cpc', 'cpcw', 'mpc', 'ipc', 'apc', 'gpc', 'cpa', 'epc', 'cpgw'],
-    'C07': ['cw', 'cW', 'cpw', 'cpW', 'cpcw', 'cbpw', 'cBpc', 'aw', 'gW', 'ew', 'cpbpB', 'ipw'],
-    'C08': ['cpc', 'cpcpc', 'mpc', 'cpm', 'cpW', 'ce', 'cpcW'],
+    'C03': {'cpc': 0, 'cpcw': 0, 'mpc': 0, 'ipc': 0, 'apc': 2, 'cpa': 2, 'epc': 0},
+    'C07': {'cw': 0, 'cW': 0, 'cpw': 0, 'cpW': 0, 'cpcw': 0, 'cbpw': 0, 'cBpc': 0, 'aw': 0, 'gW': 0, 'ew': 0, 'cpbpB': 2, 'ipw': 0},
+    'C08': {'cpc': 0, 'cpcpc': 3, 'mpc': 0, 'cpm': 0, 'cpW': 0, 'ce': 0, 'cpcW': 0},
 }
 THOROUGH_SHAPES = {
-    'C03': ['cpcpc', 'cpcpcw', 'mpipc', 'gpapc', 'cpgpcw', 'ipgpa', 'cpcpWpc', 'apcpb', 'cpcpcpc'],
+    'C03': ['gpc', 'cpgw', 'cpcpc', 'cpcpcw', 'mpipc', 'gpapc', 'cpgpcw', 'ipgpa', 'cpcpWpc', 'apcpb', 'cpcpcpc'],
     'C07': ['cpcpw', 'cpwpcpw', 'cbpcpW', 'gpwpc', 'apbpW', 'cpBpbpc', 'ipWpcw', 'cpcpbpcpw', 'epw', 'cwpcw'],
     'C08': ['cpcpcpc', 'mpmpc', 'cpcpW', 'cpmpcpc', 'cpcpcpcpc'],
 }
@@ -381,16 +394,25 @@ THOROUGH_SHAPES = {
 
 def cells(prop, tier):
     out = []
-    for sh in QUICK_SHAPES[prop]:
-        out.append(_cell(prop, sh, 'quick', 300))
+    for sh, sp in QUICK_SHAPES[prop].items():
+        out += _cell(prop, sh, 'quick', 300, split=sp)
     if prop == 'C03':
-        out.append(_cell(prop, 'cpc', 'quick', 300, deco=True))
+        out += _cell(prop, 'cpc', 'quick', 300, deco=True)
+        for fpv in (-1, 1):     # async-generator producer: failure position fixed per cell
+            for c in _cell(prop, 'gpc', 'quick', 300, fp=fpv, split=2):
+                c.name += '_fp%d' % (fpv + 1)
+                out.append(c)
     if prop == 'C07':
-        for sh in ('c', 'cpc', 'a', 'cpcpc'):
+        from harness.batcher import parts, product_pre
+        for sh, tr in (('c', 'quick'), ('cpc', 'thorough'), ('a', 'quick'), ('cpcpc', 'thorough'), ('cpa', 'thorough'), ('gpc', 'thorough')):
+            if tr == 'thorough' and tier != 'thorough':
+                continue
             npz = sum(1 for k in sh if k in 'pag')
-            out.append(Cell(name='c07_shutdown_%s' % sh, sig='pauses: List[int], dur: int, fails: List[bool], at: int',
-                            pre=['len(pauses) == %d and all(0 <= p <= 25 for p in pauses) and 0 <= dur <= 25 and len(fails) == 1 and 0 <= at <= 60' % npz],
-                            body='H.scen_shutdown(%r, pauses, dur, fails, -1, at)' % sh, tier='quick', timeout=300, family='c07', weight=2))
+            for sfx, pre in product_pre([parts('at', [(0, 9), (10, 19), (20, 45)]), parts('dur', [(0, 9), (10, 15)])]):
+                out.append(Cell(name='c07_shutdown_%s_p%s' % (sh, sfx), sig='pauses: List[int], dur: int, fails: List[bool], at: int',
+                                pre=['len(pauses) == %d and all(0 <= p <= 15 for p in pauses) and len(fails) == 1' % npz, pre],
+                                body='H.scen_shutdown(%r, pauses, dur, fails, -1, at)' % sh, tier=tr,
+                                timeout=300 if tr == 'quick' else 3000, family='c07', weight=3))
     tw = {'C03': 'cpc', 'C07': 'cpcpw', 'C08': 'cpcpc'}[prop]
     npz = sum(1 for k in tw if k in 'pag')
     out.append(Cell(name='twin_%s' % prop.lower(), sig='pauses: List[int], dur: int, fails: List[bool]',
@@ -398,11 +420,11 @@ def cells(prop, tier):
                     body='H.twin(%r, %r, pauses, dur, fails)' % (prop, tw), expect='refute', timeout=200, family=prop.lower()))
     if tier == 'thorough':
         for sh in THOROUGH_SHAPES[prop]:
-            out.append(_cell(prop, sh, 'thorough', 3000, nfail=3))
-        for sh in QUICK_SHAPES[prop][:4]:
-            c = _cell(prop, sh, 'thorough', 3000, nfail=4)
-            c.name += '_f4'
-            out.append(c)
+            out += _cell(prop, sh, 'thorough', 3000, nfail=3, split=1)
+        for sh in list(QUICK_SHAPES[prop])[:4]:
+            for c in _cell(prop, sh, 'thorough', 3000, nfail=4):
+                c.name += '_f4'
+                out.append(c)
     return out
 
 
